@@ -23,6 +23,22 @@ fn checksum(r: &mut Report, f: &[u8], class: &str) -> Option<u32> {
             } else {
                 r.class(class);
             }
+            // the frame as a demodulator hands it over: at the front of a longer buffer, with its length announced in
+            // bits (a short reply in a 14-byte buffer). The checksum is that of the announced frame, whatever follows.
+            if crate::util::fnv(f) % 4 == 1 {
+                let mut buf = f.to_vec();
+                let extra = 1 + (crate::util::fnv(f) >> 8) as usize % 7;
+                for k in 0..extra {
+                    buf.push((crate::util::fnv(f) >> (8 * (k % 8))) as u8 ^ 0x5A);
+                }
+                r.evaluations += 1;
+                match guarded(|| modes_checksum(&buf, f.len() * 8)) {
+                    Ok(Ok(g2)) if g2 == exp => r.class("checksum:frame-at-the-front-of-a-longer-buffer"),
+                    Ok(Ok(g2)) => r.violation(&format!("C02:checksum:longer-buffer:len{}", f.len()), format!("modes_checksum({}, {} bits) = {g2:06x}, the remainder of the announced {}-byte frame is {exp:06x}", hexs(&buf), f.len() * 8, f.len()), json!({"kind":"checksum","frame":hexs(f)})),
+                    Ok(Err(e)) => r.violation("C02:checksum:longer-buffer:error", format!("modes_checksum({}, {} bits) = Err({e})", hexs(&buf), f.len() * 8), json!({"kind":"checksum","frame":hexs(f)})),
+                    Err((loc, msg)) => r.violation(&format!("C02:panic:modes_checksum:{}", short_loc(&loc)), format!("modes_checksum({}, {} bits) panicked: {}", hexs(&buf), f.len() * 8, msg_class(&msg)), json!({"kind":"checksum","frame":hexs(f)})),
+                }
+            }
             Some(got)
         }
     }
